@@ -398,7 +398,7 @@ func (g *gen) symbol() slip.Object {
 
 var safeSymbols = []string{"foo", "bar", "a", "x1", "car", "Foo", "FOO", "fooBar", "a-b", "*x*", "+", "-", "1+", "a.b", "...", "<=", "a:b", "$v", "%", "=", "~a", "^", "_",
 	"tt", "nile", ":key", ":Key", ":", ":1", "quote", "lambda", "u", "defun", "&rest", "a@b", "x/y"}
-var safePipeSymbols = []string{"a b", "a(b", "(", ")", "'", "a'b", "\"", ";", "a;b", "#", "a#", ",", "`", "a&b", "[", "]", "{", "}", "!", "a!", "A B", "Hello World", "x y z", "", "123", "-5", "1.", "1e5", "1d0", "1/2", "2s3", "a|b", "|", "a\\b", "\\", "a\x01b", "a\tb", "x|y z", ":a b", ":(", ":a|b", "a?", "?", "."}
+var safePipeSymbols = []string{"a b", "a(b", "(", ")", "'", "a'b", "\"", ";", "a;b", "#", "a#", ",", "`", "a&b", "[", "]", "{", "}", "!", "a!", "A B", "Hello World", "x y z", "", "123", "-5", "1.", "1e5", "1d0", "1/2", "2s3", "a|b", "|", "a\\b", "\\", "a\x01b", "a\tb", "x|y z", ":a b", ":(", ":a|b", "a?", "?", ".", "nil", "NIL", "Nil"}
 
 func (g *gen) safeAtom() slip.Object {
 	r := g.rng()
@@ -914,6 +914,14 @@ func repairedCases() (out []repairedCase) {
 		slip.NewVector(3, slip.TrueSymbol, nil, slip.List{a, dot, b}, false)} {
 		for _, c := range []cfg{flat, pretty, with(pretty, func(c *cfg) { c.pcase = "up"; c.margin = 2 })} {
 			out = append(out, repairedCase{"C03-9", c, o})
+		}
+	}
+	// C03-10: symbols named nil in any case next to the empty list
+	for _, o := range []slip.Object{slip.Symbol("nil"), slip.Symbol("NIL"), slip.Symbol("Nil"), slip.Symbol("nIL"),
+		slip.List{slip.Symbol("nil"), nil, slip.Symbol("NIL"), slip.Symbol("nile"), slip.Symbol("ni")},
+		slip.List{nil, slip.Tail{Value: slip.Symbol("Nil")}}, slip.NewVector(2, slip.TrueSymbol, nil, slip.List{slip.Symbol("nil"), nil}, false)} {
+		for _, c := range []cfg{flat, pretty, with(pretty, func(c *cfg) { c.pcase = "up"; c.margin = 2 }), with(flat, func(c *cfg) { c.pcase = "cap" }), with(flat, func(c *cfg) { c.pcase = "none" })} {
+			out = append(out, repairedCase{"C03-10", c, o})
 		}
 	}
 	return
